@@ -811,3 +811,13 @@ func (sh *ServerHello) SelectedVersion() uint16 {
 	}
 	return sh.Version
 }
+
+// ParseExtension strictly parses one ClientHello extension body; the decoded view is
+// returned in a ClientHello that holds only this extension.
+func ParseExtension(t uint16, body []byte) (*ClientHello, error) {
+	ch := &ClientHello{PaddingLen: -1, HasExts: true, Exts: []Ext{{t, body}}}
+	if err := ch.parseExt(Ext{t, body}); err != nil {
+		return nil, err
+	}
+	return ch, nil
+}
